@@ -18,9 +18,10 @@ def main():
     ap = argparse.ArgumentParser()
     ap.add_argument("src"); ap.add_argument("id")
     ap.add_argument("--props", required=True); ap.add_argument("--tier", default="quick"); ap.add_argument("--seed", default="0")
+    ap.add_argument("--from-head", action="store_true")
     a = ap.parse_args()
     src = Path(a.src)
-    p = subprocess.run([sys.executable, str(VERIF / "tools" / "seedeval.py"), str(src), "--props", a.props, "--tier", a.tier, "--seed", a.seed],
+    p = subprocess.run([sys.executable, str(VERIF / "tools" / "seedeval.py"), str(src), "--props", a.props, "--tier", a.tier, "--seed", a.seed] + (["--from-head"] if a.from_head else []),
                        capture_output=True, text=True)
     summ = None
     for l in p.stdout.split("\n"):
